@@ -71,8 +71,25 @@ def replay_known(ctx, res):
                 res.violation('the pinned witness of F18 behaves in a new way: %s instead of UnexpectedCharacters' % type(e).__name__, dict(w))
 
 
+def replay_f35(ctx, res):
+    from lark import Lark
+    from lark.exceptions import UnexpectedCharacters
+    for f in ctx['known']:
+        if f['id'] == 'F35' and f['status'] == 'fixed':
+            w = f['witness']
+            for parser, lexer in (('earley', 'basic'), ('lalr', 'basic'), ('lalr', 'contextual')):
+                try:
+                    Lark(w['grammar'], parser=parser, lexer=lexer).parse(w['text'])
+                    got = 'accepted'
+                except UnexpectedCharacters as e:
+                    got = sorted(e.allowed)
+                if got != ['IF', 'NAME']:
+                    res.violation('regression of fixed finding F35: ' + f['what'], {'grammar': w['grammar'], 'text': w['text'], 'parser': parser, 'lexer': lexer, 'allowed': got, 'legal_next': ['IF', 'NAME']})
+
+
 def run(ctx, res):
     replay_known(ctx, res)
+    replay_f35(ctx, res)
     check_earley(ctx, res)
     # LALR clauses: error at the first token the (model) driver cannot consume, accepts() = trial feeding, accepts within expected, no hang
     from props import c02
